@@ -34,6 +34,8 @@ EXC = {
 
 
 def run(ctx, obs):
+    from ..rules import sweeps
+    sweeps.run(ctx, obs, 'C11')
     prog = ctx.prog
     for m in DS_METHODS:
         q = D + 'Dataset.' + m
